@@ -1385,6 +1385,11 @@ func init() {
 			i.trace.spawn(i, fr, a[0], a[1], nil)
 			return nil
 		}
+		if i.goOrder != nil {
+			// goroutine-order mode: the functions run at Wait, in the order the harness chose
+			i.goPending = append(i.goPending, [2]value{a[0], a[1]})
+			return nil
+		}
 		r := call(i, fr, 0, a[1], nil)
 		if e, ok := r.(iface); ok && e.t != nil {
 			if i.egErr == nil {
@@ -1400,10 +1405,56 @@ func init() {
 		if fr.i.trace != nil {
 			fr.i.trace.syncEvent("eg.Wait", a[0], 1)
 		}
+		if i := fr.i; i.goOrder != nil {
+			var mine, rest [][2]value
+			for _, p := range i.goPending {
+				if p[0].(*value) == a[0].(*value) {
+					mine = append(mine, p)
+				} else {
+					rest = append(rest, p)
+				}
+			}
+			i.goPending = rest
+			done := make([]bool, len(mine))
+			runOne := func(k int) {
+				if k < 0 || k >= len(mine) || done[k] {
+					return
+				}
+				done[k] = true
+				r := call(i, fr, 0, mine[k][1], nil)
+				if e, ok := r.(iface); ok && e.t != nil {
+					if i.egErr == nil {
+						i.egErr = map[*value]value{}
+					}
+					if _, seen := i.egErr[a[0].(*value)]; !seen {
+						i.egErr[a[0].(*value)] = e
+					}
+				}
+			}
+			for _, k := range i.goOrder {
+				runOne(k)
+			}
+			for k := range mine {
+				runOne(k)
+			}
+		}
 		if e, ok := fr.i.egErr[a[0].(*value)]; ok {
 			return e
 		}
 		return iface{}
+	})
+	// verifGoOrder(perm): goroutines started through an errgroup run as wholes, in the
+	// given order, when the group is waited for (nil: at once, in spawn order)
+	reg(pkgPrefix+"verifGoOrder", func(fr *frame, a []value) value {
+		fr.i.goOrder = nil
+		fr.i.goPending = nil
+		if sl, ok := a[0].([]value); ok && sl != nil {
+			fr.i.goOrder = []int{}
+			for _, v := range sl {
+				fr.i.goOrder = append(fr.i.goOrder, int(asInt64(v)))
+			}
+		}
+		return nil
 	})
 	reg("(*sync.Once).Do", func(fr *frame, a []value) value {
 		i := fr.i
